@@ -122,7 +122,7 @@ pub fn check(cfg: &Cfg, rep: Option<&mut Report>) -> Result<u64, String> {
 
 pub fn main(tier: &str, seed: u64, outdir: &str) {
     let mut rep = Report::new("C03");
-    let n = if tier == "thorough" { 400 } else { 80 };
+    let n = if tier == "thorough" { 3000 } else { 80 };
     for case in 0..n {
         let mut r = Sm::new(seed, "C03", case);
         let preset = (case % 3) as u8;
